@@ -81,6 +81,45 @@ def storage_target(b, e, carr):
     via = []
     idx = None
     cur = e
+    # pointer obtained from a mutable iterator over storage: `for w in x.data.iter_mut()`, possibly through
+    # zip / skip / take / enumerate / rev adaptors (tuple components select the zipped side)
+    sel = []
+    probe = cur
+    while probe[0] == "field" and probe[2].isdigit():
+        sel.append(int(probe[2]))
+        probe = probe[1]
+    if probe[0] == "iv":
+        src = b.iter_source(probe[1])
+        sel = list(reversed(sel))
+        seen_mut = False
+        for _ in range(12):
+            if not (is_call(src) and src[3]):
+                break
+            nm = src[1]
+            if nm == "zip" and len(src[3]) == 2:
+                if not sel:
+                    break
+                k = sel.pop(0)
+                src = src[3][min(k, 1)]
+            elif nm == "enumerate":
+                if not sel or sel.pop(0) != 1:
+                    src = None
+                    break
+                src = src[3][0]
+            elif nm in ("skip", "take", "rev", "into_iter", "step_by", "chain", "by_ref"):
+                src = src[3][0]
+            elif nm in ("iter_mut", "chunks_mut", "chunks_exact_mut"):
+                seen_mut = True
+                src = src[3][0]
+            else:
+                break
+        if src is not None and seen_mut:
+            inner = storage_target(b, src, carr) if src[0] != "iv" else None
+            if inner is not None:
+                return inner[0], ("iter", src), inner[2] + ["iter_mut"]
+            if src[0] == "field" and src[2] == "data":
+                return src[1], ("iter", src), ["iter_mut"]
+        return None
     for _ in range(12):
         if cur[0] == "field" and cur[2] == "0" and cur[1][0] == "variant" and cur[1][2] == "Some":
             cur = cur[1][1]
